@@ -35,7 +35,7 @@ def histories(ops):
 
 def exec_three(ops_lines, tag):
     """Execute protocol lines on implementation, model and spec. Returns three answer lists."""
-    d = os.path.join(core.BUILD, "scratch")
+    d = core.SCRATCH
     os.makedirs(d, exist_ok=True)
     p = os.path.join(d, f"{tag}.ops")
     with open(p, "w") as f:
@@ -95,7 +95,7 @@ def run(r: core.Run, mode, prop_module, what):
             pr["ok"] = False
             pr["failed"].append(("leanchecker", out[-500:]))
     r.cov["rule"] = what
-    d = os.path.join(core.BUILD, "scratch")
+    d = core.SCRATCH
     os.makedirs(d, exist_ok=True)
     base = os.path.join(d, f"{r.prop}-{mode}")
 
